@@ -9,6 +9,7 @@ import (
 	"encoding/binary"
 	"fmt"
 	"math/big"
+	"os"
 	"strings"
 
 	"verifharness/internal/h"
@@ -46,6 +47,8 @@ func lkRec(db ethdb.KeyValueReader, batch ethdb.Batch, o, m common.Address, b by
 }
 
 func runLockup(seed uint64, n int, outDir string, replay string) {
+	lkTmp, _ := os.MkdirTemp("", "qvh-lockup")
+	defer os.RemoveAll(lkTmp)
 	vm.InitializePrecompiles(evLoc)
 	o := h.NewOut(outDir, "lockup")
 	r := h.NewRng(seed)
@@ -65,8 +68,24 @@ func runLockup(seed uint64, n int, outDir string, replay string) {
 					o.Pad("panic %v", p)
 				}
 			}()
-			mdb := rawdb.NewMemoryDatabase(log.Global)
-			sdbDB := state.NewDatabase(mdb)
+			// the database is one of the three storage engines: a block's reads of
+			// its own uncommitted lockup writes and deletes go through the engine's batch
+			var mdb ethdb.Database = rawdb.NewMemoryDatabase(log.Global)
+			switch rc.Intn(4) {
+			case 0:
+				if d, err := rawdb.NewLevelDBDatabase(fmt.Sprintf("%s/lk-l%d", lkTmp, c), 16, 16, "", false, log.Global, evLoc); err == nil {
+					mdb = d
+					defer d.Close()
+					o.Count("engine:leveldb")
+				}
+			case 1:
+				if d, err := rawdb.NewPebbleDBDatabase(fmt.Sprintf("%s/lk-p%d", lkTmp, c), 16, 16, "", false, log.Global, evLoc); err == nil {
+					mdb = d
+					defer d.Close()
+					o.Count("engine:pebble")
+				}
+			}
+			sdbDB := state.NewDatabase(mdb) // AddNewLock reads committed records through the state's underlying database
 			sdb, err := state.New(common.Hash{}, common.Hash{}, new(big.Int), sdbDB, sdbDB, nil, evLoc, log.Global)
 			if err != nil {
 				panic(err)
@@ -114,10 +133,18 @@ func runLockup(seed uint64, n int, outDir string, replay string) {
 			owed := map[key]*big.Int{}
 			zeroUnlock := map[key]bool{}
 			nops := 6 + rc.Intn(25)
+			var again *key
 			for i := 0; i < nops; i++ {
 				k := pickKey()
+				x := rc.Intn(100)
+				forcedPlain := false
+				if again != nil {
+					// directed: the same tranche once more (a claim after a reverted claim, a claim after a successful one)
+					k, x, forcedPlain = *again, 60, true
+					again = nil
+				}
 				oa, ma := lkAddr(k.o, false), lkAddr(0x10+k.m, false)
-				switch x := rc.Intn(100); {
+				switch {
 				case x < 40:
 					// add a reward to the tranche
 					del := rc.Intn(3)
@@ -128,6 +155,8 @@ func runLockup(seed uint64, n int, outDir string, replay string) {
 					unlockHeight := uint64(k.e+1)*params.CoinbaseEpochBlocks + uint64(rc.Intn(int(params.CoinbaseEpochBlocks)))
 					if rc.Chance(8) {
 						unlockHeight = uint64(rc.Intn(int(params.CoinbaseEpochBlocks))) // early chain: epoch-aligned height 0
+					} else if rc.Chance(15) {
+						unlockHeight = uint64(k.e+1+uint32(rc.Intn(2))) * params.CoinbaseEpochBlocks // exactly on an epoch boundary
 					}
 					value := big.NewInt(int64(rc.Intn(1000)))
 					before := lkRec(mdb, batch, oa, ma, k.b, k.e)
@@ -166,11 +195,15 @@ func runLockup(seed uint64, n int, outDir string, replay string) {
 					if rc.Chance(15) {
 						caller = 3 - k.o // the other contract: not the owner of this key
 					}
+					pair := !forcedPlain && rc.Chance(45) // this claim is followed by a plain claim of the same tranche
 					bn := blockNumber
-					if rc.Chance(30) {
+					if rc.Chance(30) || forcedPlain || pair {
 						_, unlock, _, _ := rawdb.ReadCoinbaseLockup(mdb, batch, oa, ma, k.b, k.e)
 						if unlock != 0 {
 							bn = uint64(unlock) + uint64(rc.Intn(3)) - 1
+							if forcedPlain || pair {
+								bn = uint64(unlock) + uint64(rc.Intn(3)) // directed sequences work on unlocked tranches
+							}
 						}
 					}
 					evm.Context.BlockNumber = new(big.Int).SetUint64(bn)
@@ -186,7 +219,14 @@ func runLockup(seed uint64, n int, outDir string, replay string) {
 					input[40] = k.b
 					binary.BigEndian.PutUint32(input[41:45], k.e)
 					binary.BigEndian.PutUint64(input[45:53], gl)
-					reverting := rc.Chance(25)
+					reverting := rc.Chance(25) && !forcedPlain
+					if pair {
+						kk := k
+						again = &kk
+						if rc.Chance(60) {
+							reverting = true // reverted claim, then the real one
+						}
+					}
 					base := len(evm.ETXCache)
 					if !reverting {
 						o.Op("claim %d %d %d %d %d %d %d %d %d", caller, 0x10+k.m, k.b, k.e, bn, gas, gl, map[bool]int{true: 0, false: 1}[toQi], base)
